@@ -41,7 +41,7 @@ func Spec() *run.Spec {
 			"7 value classes, no materials or a random partition into 1–5 ranges incl. zero-length ranges at any place, adjacent equal, nil and equal-by-name materials, material pointers shared across meshes); " +
 			"non-trivial iff ≥ 2 meshes with different attribute sets. " +
 			"load-save: one case = one generated valid triangulated OBJ text (0–5 g statements, faces before any g, empty groups, repeated group names, usemtl before g / after g / between faces / twice in a row / after the last face / none / same name again / reused across groups, " +
-			"one of the corner forms v, v/vt, v//vn, v/vt/vn per group, pools first / interleaved / one block per group, comments, blank lines, s/o/mtllib statements, tabs, CRLF, 4-component v, 3-component vt, no final newline); " +
+			"the corner forms v, v/vt, v//vn, v/vt/vn, one per group or mixed face by face inside a group, pools first / interleaved / one block per group, comments, blank lines, s/o/mtllib statements, tabs, CRLF, 4-component v, 3-component vt, no final newline); " +
 			"non-trivial iff ≥ 2 groups with faces and ≥ 2 usemtl statements. files: one case = a list saved with obj.Save / obj.SaveAll and loaded with obj.Load; non-trivial iff some mesh carries ≥ 2 material ranges or ≥ 2 meshes. " +
 			"Distinctness = phase / writer variant / per-mesh (attribute set, index pattern, material kind, size bucket) resp. layout / groups / usemtl count / form sequence / arrangement flags / noise.",
 		Assumptions: []string{
@@ -49,9 +49,10 @@ func Spec() *run.Spec {
 			"OBJ has no statement that ends a material: a mesh WITHOUT material ranges that follows a mesh with ranges may come back either without material or with the material the previous usemtl left in force (both accepted, counted in carried_material_meshes)",
 			"float32 precision: a value read back must be float32(x); when x lies exactly half way between two float32 values either neighbour is accepted",
 			"materials are identified by name (the reader creates its own material values; only the name is compared)",
+			"a group of a loaded text may mix the corner forms v, v/vt, v//vn, v/vt/vn: a face of such a group is matched by a re-saved face with the same three positions in order, the same normal / texcoord at every corner that had one, and none or a zero normal / texcoord at corners that had none; faces of groups with one form are matched strictly (same form, same data); matching is one-to-one (maximum bipartite matching)",
 			"meshes are non-empty: a mesh with zero triangles has no face statements and cannot be told from an empty group (outside the workload, see DESIGN.md C05)",
-			"load-save judges faces as multisets of corner data (position, texcoord, normal as referenced); order, group and material agreement of the re-saved faces are measured and reported as counters only",
-			"generated texts use one corner form per group, positive indices, triangles only, definitions before use, names without blanks (negative indices, polygons and mixed forms inside one group are out of reach)",
+			"load-save judges faces as multisets of corner data (position, texcoord, normal as referenced; see the mixed-form rule); order, group and material agreement of the re-saved faces are measured and reported as counters only",
+			"generated texts use positive indices, triangles only, definitions before use, names without blanks (negative indices and polygons are out of reach); one group in six with several forms available mixes them face by face",
 		},
 		MinNontrivial: map[string]int{"quick": 300, "thorough": 2000},
 		MinObserved: map[string]int64{
@@ -69,6 +70,7 @@ func Spec() *run.Spec {
 			"text_forms":                                4,
 			"text_layouts":                              3,
 			"attribute_set_pairs":                       12,
+			"faces_matched_with_zero_filled_corner":     500,
 			"file_cases":                                50,
 		},
 		Phases: []run.Phase{
@@ -526,39 +528,40 @@ func loadSave(c *run.Ctx) run.Result {
 		return res
 	}
 
-	// no face lost, none invented (multiset of corner data)
-	wantKeys := map[string]int{}
-	for i := range want.Faces {
-		wantKeys[want.Faces[i].key()]++
+	// no face lost, none invented: maximum one-to-one matching of input and output faces
+	// (strict corner data; in groups that mix corner forms a corner without vt/vn may
+	// come back with a zero one, see match.go)
+	mixed := mixedSegments(want.Faces)
+	if len(mixed) > 0 {
+		res.Count("texts_with_mixed_form_group", 1)
 	}
-	gotKeys := map[string]int{}
-	for i := range got.Faces {
-		gotKeys[got.Faces[i].key()]++
-	}
+	inTo, outUsed := matchFaces(want.Faces, got.Faces, mixed)
 	site := "obj.WriteMeshes(obj.ReadMesh)"
 	if loadedTris != len(want.Faces) {
 		site = "obj.ReadMesh" // the loss is already visible in the loaded list
 	}
 	lost, invented := 0, 0
 	var firstLost, firstInv string
-	seenW := map[string]int{}
-	for i := range want.Faces {
-		k := want.Faces[i].key()
-		seenW[k]++
-		if seenW[k] > gotKeys[k] { // this instance has no counterpart in the output
+	for i, j := range inTo {
+		if j == -1 {
 			if lost == 0 {
 				firstLost = want.Faces[i].String()
+				if mixed[want.Faces[i].Seg] {
+					firstLost += " (its group mixes corner forms)"
+				}
 			}
 			lost++
+		} else if mixed[want.Faces[i].Seg] {
+			res.Count("faces_of_mixed_form_groups_matched", 1)
+			if want.Faces[i].key() != got.Faces[j].key() {
+				res.Count("faces_matched_with_zero_filled_corner", 1)
+			}
 		}
 	}
-	seenG := map[string]int{}
-	for i := range got.Faces {
-		k := got.Faces[i].key()
-		seenG[k]++
-		if seenG[k] > wantKeys[k] { // this instance has no counterpart in the input
+	for j, u := range outUsed {
+		if !u {
 			if invented == 0 {
-				firstInv = got.Faces[i].String()
+				firstInv = got.Faces[j].String()
 			}
 			invented++
 		}
@@ -581,10 +584,10 @@ func loadSave(c *run.Ctx) run.Result {
 	// measured, not judged: order, group and material of the re-saved faces
 	sameOrder, sameGroup, sameMat, defaulted := 0, 0, 0, 0
 	for i := range want.Faces {
-		w, g := &want.Faces[i], &got.Faces[i]
-		if w.key() != g.key() {
+		if inTo[i] != i {
 			continue
 		}
+		w, g := &want.Faces[i], &got.Faces[i]
 		sameOrder++
 		if w.Group == g.Group {
 			sameGroup++
